@@ -70,11 +70,11 @@ static int test_notify_all(void)
         lock_init(&g_lock); condition_variable_init(&g_cv);
         g_flag = 0; atomic_store(&g_awake, 0); atomic_store(&g_waiting, 0);
         for (int i = 0; i < N; ++i) { thread_init(&t[i]); thread_create(&t[i], waiter, 0); }
-        for (int spin = 0; spin < 2000 && atomic_load(&g_waiting) < N; ++spin) msleep(1);
+        for (int spin = 0; spin < 20000 && atomic_load(&g_waiting) < N; ++spin) msleep(1);
         msleep(20);   // let the last one reach the wait
         lock_acquire(&g_lock); g_flag = 1; lock_release(&g_lock);
         condition_variable_notify_all(&g_cv);      // ONE notification
-        for (int spin = 0; spin < 1500 && atomic_load(&g_awake) < N; ++spin) msleep(1);
+        for (int spin = 0; spin < 15000 && atomic_load(&g_awake) < N; ++spin) msleep(1);   // (generous: the machine may be busy)
         int awake = atomic_load(&g_awake);
         if (awake < N) {
             printf("ORACLE notify_all-did-not-wake-every-waiter rep=%d awake=%d of %d\n", rep, awake, N);
@@ -140,7 +140,7 @@ int __wrap_pthread_cond_wait(pthread_cond_t* c, pthread_mutex_t* m)
 {
     if (atomic_load(&g_hold_waiter)) {
         atomic_store(&g_waiter_at_entry, 1);
-        for (int spin = 0; spin < 3000 && atomic_load(&g_hold_waiter); ++spin) msleep(1);
+        for (int spin = 0; spin < 30000 && atomic_load(&g_hold_waiter); ++spin) msleep(1);
     }
     return __real_pthread_cond_wait(c, m);
 }
@@ -152,13 +152,13 @@ static int test_notify_during_wait_entry(void)
         g_flag = 0; atomic_store(&g_awake, 0); atomic_store(&g_waiting, 0); atomic_store(&g_waiter_at_entry, 0);
         atomic_store(&g_hold_waiter, 1);
         thread_init(&t); thread_create(&t, waiter, 0);
-        for (int spin = 0; spin < 2000 && !atomic_load(&g_waiter_at_entry); ++spin) msleep(1);
+        for (int spin = 0; spin < 20000 && !atomic_load(&g_waiter_at_entry); ++spin) msleep(1);
         condition_variable_notify_all(&g_cv);      // a late notification of something that happened earlier: nobody is asleep yet
         atomic_store(&g_hold_waiter, 0);           // the waiter goes to sleep now
         msleep(30);
         lock_acquire(&g_lock); g_flag = 1; lock_release(&g_lock);
         condition_variable_notify_all(&g_cv);      // the notification that matters
-        for (int spin = 0; spin < 1500 && !atomic_load(&g_awake); ++spin) msleep(1);
+        for (int spin = 0; spin < 15000 && !atomic_load(&g_awake); ++spin) msleep(1);
         if (!atomic_load(&g_awake)) {
             printf("ORACLE notify_all-after-an-early-notification-did-not-wake-the-waiter rep=%d\n", rep);
             for (int k = 0; k < 100 && !atomic_load(&g_awake); ++k) { pthread_cond_broadcast(&g_cv.inner_); msleep(5); }
@@ -183,7 +183,7 @@ static int test_event(void)
         event_init(&g_ev); atomic_store(&g_ev_passed, 0);
         event_notify_all(&g_ev);
         thread_init(&t); thread_create(&t, ev_waiter, 0);
-        for (int spin = 0; spin < 1000 && !atomic_load(&g_ev_passed); ++spin) msleep(1);
+        for (int spin = 0; spin < 15000 && !atomic_load(&g_ev_passed); ++spin) msleep(1);
         if (!atomic_load(&g_ev_passed)) { printf("ORACLE event-notification-before-the-wait-was-lost rep=%d\n", rep); event_notify_all(&g_ev); thread_join(&t); return 1; }
         thread_join(&t);
         // ... and has consumed the notification: the next wait blocks until the next notification
@@ -192,7 +192,7 @@ static int test_event(void)
         msleep(40);
         if (atomic_load(&g_ev_passed)) { printf("ORACLE event-wait-returned-without-a-notification rep=%d\n", rep); thread_join(&t); return 1; }
         event_notify_all(&g_ev);
-        for (int spin = 0; spin < 1000 && !atomic_load(&g_ev_passed); ++spin) msleep(1);
+        for (int spin = 0; spin < 15000 && !atomic_load(&g_ev_passed); ++spin) msleep(1);
         if (!atomic_load(&g_ev_passed)) { printf("ORACLE event-wait-not-released-by-notify rep=%d\n", rep); return 1; }
         thread_join(&t);
         event_destroy(&g_ev);
@@ -209,14 +209,14 @@ static int test_clock(void)
     clock_tic(&c);
     clock_sleep_ms(0, 30.0f);
     double ms = clock_toc_ms(&c);
-    if (ms < 20.0 || ms > 5000.0) { printf("ORACLE clock-sleep-30ms-measured-as %.3f ms\n", ms); return 1; }
+    if (ms < 20.0 || ms > 120000.0) { printf("ORACLE clock-sleep-30ms-measured-as %.3f ms\n", ms); return 1; }
     printf("ok clock-sleep-and-toc\n");
     return 0;
 }
 
 int main(void)
 {
-    alarm(120);
+    alarm(600);
     int bad = 0;
     setvbuf(stdout, 0, _IOLBF, 0);
     bad |= test_join_two();
